@@ -61,6 +61,9 @@ def gen(rng, t, k):
          'i64': (-2 ** 63, 2 ** 63), 'varint': (0, 2 ** 31), 'varlong': (0, 2 ** 63)}
     if t == 'bool':
         return k % 2 == 0
+    if t in ('varint', 'varlong') and rng.random() < 0.5:
+        # every width boundary of the base-128 encoding, both sides
+        return rng.choice([127, 128, 16383, 16384, 16385, 2 ** 21 - 1, 2 ** 21, 2 ** 21 + 1, 2 ** 28 - 1, 2 ** 28, 2 ** 31 - 1])
     if t in B:
         lo, hi = B[t]
         return [lo, hi - 1, 0, rng.randrange(lo, hi), rng.randrange(lo, hi)][k % 5]
@@ -69,8 +72,8 @@ def gen(rng, t, k):
     if t == 'f64':
         return [0.0, -1.0, 1234.5678, 3e7, -0.0][k % 5]
     if t == 'string':
-        if rng.random() < 0.02:         # legal but long: the limit is in characters, the prefix counts UTF-8 bytes
-            return rng.choice(['é' * 20000, '{"text":"' + 'y' * 100000 + '"}', 'x' * 32767, 'x' * 32768])
+        if rng.random() < 0.03:         # legal but long: the limit is in characters, the prefix counts UTF-8 bytes
+            return rng.choice(['é' * 20000, '{"text":"' + 'y' * 100000 + '"}', 'x' * 32767, 'x' * 32768, 'x' * 16383, 'x' * 16384, 'é' * 8192])
         return ['', 'localhost', '{"text":"é世"}', 'x' * 200, 'play.example.org'][k % 5]
     if t == 'uuid':
         return str(uuidlib.UUID(bytes=bytes(rng.randrange(256) for _ in range(16))))
